@@ -604,6 +604,16 @@ func validate(caller string, start, limit uint64, blocks []eth.Block) error {
 		const tag = "%s: rpc response contains invalid data. requested last: %d got: %d"
 		return fmt.Errorf(tag, caller, start+limit-1, last)
 	}
+	if uint64(len(blocks)) != limit {
+		const tag = "%s: rpc response contains invalid data. requested %d blocks got: %d"
+		return fmt.Errorf(tag, caller, limit, len(blocks))
+	}
+	for i := range blocks {
+		if blocks[i].Num() != start+uint64(i) {
+			const tag = "%s: rpc response contains invalid data. requested: %d got: %d"
+			return fmt.Errorf(tag, caller, start+uint64(i), blocks[i].Num())
+		}
+	}
 	for i := 1; i < len(blocks); i++ {
 		prev, curr := blocks[i-1], blocks[i]
 		if !bytes.Equal(curr.Header.Parent, prev.Hash()) {
